@@ -116,8 +116,9 @@ class _np_quiet:
 
 
 def long_path_task(task):
-    """Necessary-condition probe on long single paths: with every continuous draw answered by the same constant u
-    (and slot 0), a reservoir of size k must keep accepting arrivals: under the uniform law the probability that none of
+    """Necessary-condition probe on long single paths: with the continuous draws answered by an equidistributed
+    deterministic sequence u_i = frac(u0 + i*phi) (and slot 0) - constants would starve correct key-based algorithms -
+    a reservoir of size k must keep accepting arrivals: under the uniform law the probability that none of
     W consecutive arrivals n0..n0+W is accepted is about (n0/(n0+W))^k, i.e. astronomically small for the windows used.
     A reservoir that stops accepting (e.g. an internal weight that underflows) is caught here; this is beyond the reach
     of the small exhaustive (k,n) configurations."""
@@ -140,15 +141,18 @@ def long_path_task(task):
                         prev = ids
                     if len(ids) != k or len(set(ids)) != k or max(ids) > t:
                         raise Violation("C08/long-path-not-a-k-subset", f"UniformReservoirStorage(size={k}) after {t} "
-                                        f"observations on the constant-draw path u={u}: {len(ids)} rows, {len(set(ids))} distinct", {})
+                                        f"observations on the equidistributed path u0={u}: {len(ids)} rows, {len(set(ids))} distinct", {})
                     if t - last_change > window:
-                        raise Violation("C08/stopped-accepting", f"UniformReservoirStorage(size={k}) on the path where every "
-                                        f"continuous draw is {u}: no arrival between {last_change} and {t} entered the reservoir "
+                        raise Violation("C08/stopped-accepting", f"UniformReservoirStorage(size={k}) on the path where the "
+                                        f"continuous draws are frac({u} + i*0.618..): no arrival between {last_change} and {t} entered the reservoir "
                                         f"(newest stored arrival {max(ids)}); under the uniform law each arrival n is kept "
                                         f"with probability k/n, the chance of such a gap is about {(last_change / t) ** k:.1e}", {})
         return max(x['id'] for x in s.get_data()[0])
+    def weyl(i):        # equidistributed deterministic draws u_i = frac(u + i * golden ratio): one "generic" path
+        v = (u + (i + 1) * 0.6180339887498949) % 1.0
+        return ((min(max(v, 1e-9), 1 - 1e-9),), None)
     with _np_quiet():
-        run, res, viol = choice.execute(driver, (), lambda i: ((u,), None), False)
+        run, res, viol = choice.execute(driver, (), weyl, False)
     return dict(kind='long', k=k, n=n, u=u, newest=res, violations=[(viol.key, viol.what)] if viol else [])
 
 
